@@ -118,13 +118,20 @@ def run(ctx):
     fr = vf.write_json(os.path.join(ctx.work, "receiver.json"), {"rels": [c_built, c_ideal]})
 
     # ---------------------------------------------------------------- replays (spec -> code), side by side
+    def harness(pkg, files, rx, env, timeout):
+        g = ctx.gotest(pkg, files, rx, env=env, timeout=timeout, allow_fail=True)
+        if g.rc != 0:   # t.Fatal of a harness = it could not drive the code (never a verdict): show why
+            why = [l.strip() for l in g.out.splitlines() if "zzv:" in l or "--- FAIL" in l or "panic" in l or "fatal error" in l]
+            raise vf.Infra("go harness failed (%s %s) rc=%d:\n%s" % (pkg, rx, g.rc, "\n".join(why[:25]) or g.out[-3000:]))
+        return g
+
     def run_type():
-        return ctx.gotest("sleep", ["common/common_test.go.tmpl", "sleep/sleepqueue_test.go"], "^TestZZVSQReplay$",
-                          env={"ZZV_IN": fa}, timeout=1800)
+        return harness("sleep", ["common/common_test.go.tmpl", "sleep/sleepqueue_test.go"], "^TestZZVSQReplay$",
+                       {"ZZV_IN": fa}, 1800)
 
     def run_mesh():
-        return ctx.gotest("agent", ["common/common_test.go.tmpl", "agent/cmesh_test.go", "agent/sleepqueue_test.go"],
-                          "^TestZZVSQ(Holder|Receiver)$", env={"ZZV_IN_HOLDER": fh, "ZZV_IN_RECEIVER": fr}, timeout=3000)
+        return harness("agent", ["common/common_test.go.tmpl", "agent/cmesh_test.go", "agent/sleepqueue_test.go"],
+                       "^TestZZVSQ(Holder|Receiver)$", {"ZZV_IN_HOLDER": fh, "ZZV_IN_RECEIVER": fr}, 3000)
 
     with ThreadPoolExecutor(max_workers=2) as ex:
         f1, f2 = ex.submit(run_type), ex.submit(run_mesh)
